@@ -26,7 +26,7 @@ REQUIRED = ["angle-class.small-angle(|a|<=0.05)", "angle-class.general-angle", "
             "contract.translate_rotate.GoalRegion", "contract.translate_rotate.containment-probe",
             "part.Trajectory-in-DynamicObstacle",
             "part.Trajectory-in-Scenario", "part.LaneletNetwork-in-Scenario", "part-with-derived-occupancies",
-            "class.NetworkSharedArrays", "class.PlanningProblemsWithCommonGoal", "class.IntDtype", "class.LaneletWithPointlessStopLine", "shared-components.move-network",
+            "class.NetworkSharedArrays", "class.PlanningProblemsWithCommonGoal", "class.NetworkWithPositionlessSignAndLight", "class.IntDtype", "class.LaneletWithPointlessStopLine", "shared-components.move-network",
             "shared-components.move-obstacle-1"]
 ASSUMPTIONS = ["tolerance 1e-11*(1+|p|+|t|) on points of the image (1e-8 for undo), 1e-10 on angles (mod 2pi)",
                "obstacle history lists and areas are not in the statement's list and are not compared"]
@@ -37,7 +37,7 @@ CLASSES = ["Rectangle", "Circle", "Polygon", "ShapeGroup", "InitialState", "KSSt
            "ExtendedPMState", "PMState", "CustomState", "UncertainState", "Trajectory", "TrajectoryPM", "Occupancy",
            "SetBasedPrediction", "TrajectoryPrediction", "StaticObstacle", "DynamicObstacle", "PhantomObstacle",
            "EnvironmentObstacle", "StopLine", "Lanelet", "TrafficSign", "TrafficLight", "LaneletNetwork", "Scenario",
-           "GoalRegion", "PlanningProblem", "PlanningProblemSet", "PlanningProblemsWithCommonGoal", "NetworkSharedArrays",
+           "GoalRegion", "PlanningProblem", "PlanningProblemSet", "PlanningProblemsWithCommonGoal", "NetworkWithPositionlessSignAndLight", "NetworkSharedArrays",
            "IntDtype",
            "LaneletWithPointlessStopLine"]
 
@@ -137,6 +137,17 @@ def make(name, G, rng):
         la = G.lanelet(3, full=True)
         la.stop_line = StopLine(None, None, LineMarking.SOLID, {5}, None)
         return la
+    if name == "NetworkWithPositionlessSignAndLight":
+        # the position of a sign / light is optional (a light without position is what the readers produce when the file
+        # gives none): there is nothing to move, the rest of the network moves as usual
+        from commonroad.scenario.lanelet import LaneletNetwork
+        from commonroad.scenario.traffic_light import TrafficLight
+        from commonroad.scenario.traffic_sign import TrafficSign, TrafficSignElement, TrafficSignIDZamunda
+        net = LaneletNetwork()
+        net.add_lanelet(G.lanelet(1, full=False))
+        net.add_traffic_sign(TrafficSign(11, [TrafficSignElement(TrafficSignIDZamunda.MAX_SPEED, ["50"])], {1}, None), {1})
+        net.add_traffic_light(TrafficLight(12, None, G.traffic_light(99, full=True).traffic_light_cycle), {1})
+        return net
     if name == "NetworkSharedArrays":
         # objects that were built from the SAME array objects (adjacent lanelets sharing their common boundary, a sign and
         # a light on one pole): every one of them is moved exactly once
